@@ -16,6 +16,10 @@ Tie to the code (model: coq/theories/Stream.v, theorems: coq/props/C02.v):
                    str(random_seed)+str(additional_seed) without separator; str(additional_key) aliases 1 and '1') is
                    modelled as the code is (kind 2: equal strings, equal draws); its two witnesses are always run,
                    fail the direct oracle and are reported as KNOWN-FINDING.
+A quarter of the observed requests go through sample_from_distribution with the identity quantile function (as ppf= and
+as scipy's uniform(0,1)): they must return the very same draws (Stream.v sample_from, C02_sample_from_distribution).  In
+`ctx` worlds of `unrel` builder.randomness.get_seed is compared too (equal for equal decision point/clock/seed, different
+after changing one of them, a valid numpy seed) - python oracle only.
 Direct oracle: get_draw(idx)[i] == get_draw([i])[0] == block element at the simulant's mapped position, range
 check, repeat/history stability, cross-parameter (in)equality.
 """
@@ -155,6 +159,7 @@ def make_component(streams, key_cols, births):
             for name, crn in streams:
                 self.streams[name] = builder.randomness.get_stream(name, initializes_crn_attributes=crn)
             self.register = builder.randomness.register_simulants
+            self.get_seed = builder.randomness.get_seed
             self.creator = builder.population.get_simulant_creator()
 
         def on_initialize_simulants(self, pop_data):
@@ -359,7 +364,8 @@ def gen_req(rng: random.Random):
         r = rng.random()
         s = rng.randrange(len(streams))
         if r < 0.55:
-            ops.append({"op": "draw", "stream": s, "idx": [rng.choice(IDX_MODES), rng.getrandbits(30)], "addl": gen_addl(rng)})
+            ops.append({"op": "draw", "stream": s, "idx": [rng.choice(IDX_MODES), rng.getrandbits(30)], "addl": gen_addl(rng),
+                        "via": rng.choice(["get_draw", "get_draw", "get_draw", "sample_ppf", "sample_dist"])})
         elif r < 0.80:
             ops.append({"op": rng.choice(["filter", "rate", "choice", "sample", "draw_noise"]), "stream": s,
                         "idx": [rng.choice(IDX_MODES[:-1]), rng.getrandbits(30)], "addl": gen_addl(rng)})
@@ -437,14 +443,22 @@ def _run_req(case):
             t[p] = di
         return sid, t
 
-    def observe(sname, idx, addl_spec):
+    def observe(sname, idx, addl_spec, via="get_draw"):
         nonlocal mp, size, nontrivial
         stream = w.streams[sname]
         addl = addl_of(addl_spec)
         index = pd.Index(idx, dtype="int64")
         _, mp, size = w.map_literal()
         try:
-            res = stream.get_draw(index, addl)
+            # sample_from_distribution = ppf(get_draw(index, additional_key)): with the identity quantile function
+            # (given as ppf or as scipy's uniform(0, 1)) it must return the very same draws (Stream.v [sample_from])
+            if via == "sample_ppf":
+                res = stream.sample_from_distribution(index, ppf=lambda q, **kw: q, additional_key=addl)
+            elif via == "sample_dist":
+                res = stream.sample_from_distribution(index, distribution=stats.uniform, additional_key=addl)
+            else:
+                res = stream.get_draw(index, addl)
+            tags.add(f"via_{via}")
             code = 0
         except RandomnessError:
             res, code = None, 1
@@ -535,7 +549,7 @@ def _run_req(case):
         tags.add(f"idx_{o['idx'][0]}")
         tags.add("addl_" + (o["addl"][0] if o["addl"] else "none"))
         if kind == "draw":
-            ints = observe(sname, idx, o["addl"])
+            ints = observe(sname, idx, o["addl"], o.get("via", "get_draw"))
             last = (sname, idx, o["addl"], str(w.clock()), ints)
             continue
         # noise calls: results are not observed here (C05 does that); they must not disturb later draws
@@ -640,6 +654,10 @@ def _draw_n(world, side):
         for _ in range(side["clock"][1]):
             w.step()
         stream = w.streams[side["key"]]
+        try:
+            side["_get_seed"] = int(w.comp.get_seed(side["key"]))      # builder.randomness.get_seed at the same clock time
+        except Exception as e:
+            side["_get_seed"] = f"raised {type(e).__name__}"
     d = stream.get_draw(pd.Index(range(N_UNREL)), addl)
     ints, good = [], True
     for x in d.tolist():
@@ -678,6 +696,17 @@ def run_unrel(case):
         # finding F-O: the two sides differ as configured VALUES but not after str()/concatenation, nothing else differs
         if vary in ALIAS_KINDS and _strings(a) == _strings(b) and same == N_UNREL:
             cls = "F-O"
+
+    # get_seed(decision_point) = hash of (decision point, clock, seed): equal for equal triples, different otherwise, and
+    # a valid numpy seed (python oracle only; SHA-1 is not modelled).  Only in `ctx` worlds (builder interface).
+    ga, gb = a.pop("_get_seed", None), b.pop("_get_seed", None)
+    if ok and ga is not None:
+        if not (isinstance(ga, int) and isinstance(gb, int) and 0 <= ga < 2 ** 32 - 1 and 0 <= gb < 2 ** 32 - 1):
+            ok, msg = False, f"get_seed returned {ga!r} / {gb!r}: not a valid numpy seed"
+        elif vary in ("none", "addl", "addl_alias") and ga != gb:
+            ok, msg = False, f"get_seed differs ({ga} vs {gb}) although decision point, clock and seed are equal: {_strings(a)}"
+        elif vary in ("key", "clock", "seed") and ga == gb:
+            ok, msg = False, f"get_seed is the same ({ga}) after changing {vary}: {_strings(a)} vs {_strings(b)}"
 
     def side(s, obs):
         k = _strings(s)
